@@ -12,7 +12,19 @@ pairs).  Observables, as the property names them:
   (b) outputs on Fraction signals versus composition of outputs (law vectors evaluated on the
       real objects and through the model);
   (c) ==, != and hash on pairs drawn equal / different in numerator only / denominator only / both;
-  (d) CascadeFilter / ParallelFilter: outputs and numpoly/denpoly against product / sum.
+  (d) CascadeFilter / ParallelFilter: outputs and numpoly/denpoly against product / sum;
+  (e) filter list OBJECTS (entry "nest"): nested mixed structures built through every constructor call shape
+      (K(*parts), K([parts]), K((parts)), K(generator), a lone filter list of either kind as the only part, user
+      subclasses) and through the `list` methods (+, *, reflected *, *=, append, extend, +=, slicing): classes and parts
+      of the result, len, output, numpoly/denpoly (as coded and with the repair of D22), is_linear, hash, and the
+      float-only freq_response against the denoted rational function on the unit circle;
+  (f) == / != matrices over pools of objects of every sort (entry "eqm"): filter lists of both kinds and of user
+      subclasses, plain lists, tuples, ZFilters, type-casted filters, LinearFilter objects, numbers, functions, in
+      both operand orders; hashability and equal hashes of equal objects;
+  (g) operand kinds / spellings of the dunders: scalars written as int / float / Fraction / bool on either side,
+      exponents written as int / bool / float / Fraction / complex, a LinearFilter that is not a ZFilter as right
+      operand, a ZFilter handed to a reflected dunder, ZFilter(filter) / ZFilter(filter, filter) /
+      ZFilter(filter, number) type casts; linearize() on fractional delays (entry "frac").
 """
 import json
 import operator
@@ -31,13 +43,26 @@ RULE = ("random expression trees (depth<=3 quick / <=4 thorough) over + - * / **
         "applied to a Fraction signal; law vectors on random triples (f,g,h,n,m,c,k,x); ==/!=/hash pairs drawn "
         "equal / numerator-only / denominator-only / both different; Cascade/Parallel lists of 0..4 filters incl. "
         "repeated denominators; non-trivial = the impl returned a filter, a law vector, a comparison or polynomials "
-        "(not an exception); distinct = distinct JSON case")
+        "(not an exception); distinct = distinct JSON case; filter list objects: nested structures of depth<=3 over "
+        "cascade/parallel/user subclasses (depth 1, 2) with 0..3 parts (ZFilters, numbers, sample-wise non-linear "
+        "callables, filter lists), constructor shapes star/list/tuple/generator, list methods add/mul/rmul/imul/append/"
+        "extend/iadd/slice incl. failing ones (tuple / ZFilter / number operands); ==/!= matrices over pools of 6..10 "
+        "objects drawn from 41 templates; scalars spelled int/float/Fraction/bool, exponents spelled "
+        "int/bool/float/Fraction/complex, foreign-domain operands, type casts; fractional (dyadic) delays for linearize")
 TRUSTED = [
     "hand-written Lean model ALV/Model/C05.lean of ZFilter / CascadeFilter / ParallelFilter arithmetic on top of "
     "the C07 Poly model and the C04 filter loop (modelled, not verified: Python's Fraction arithmetic as a field, "
     "OrderedDict as association list, `sum()` as a fold from ZFilter([0]))",
     "cross-multiplication, polynomial product and signal comparison of harness/props/c05.py (exact Fractions)",
     "hash: the model gives the tuple of sorted powers that LinearFilter.__hash__ hashes; CPython's hash() is trusted",
+    "hand-written Lean model ALV/Model/C05List.lean of FilterList objects (constructor rule on callable/iterable "
+    "arguments, metaclass dunders `cls(super().__add__(other))` incl. the wrapping by user subclasses, CPython's "
+    "list_richcompare for list.__eq__/__ne__, `obj *= n` dispatching to __mul__, unhashability of classes defining "
+    "__eq__) and ALV/Model/C05Lin.lean (exponent / scalar spellings, foreign-domain errors, linearize of fractional "
+    "delays with int() truncation toward zero): modelled, tied by the differential runs, not verified",
+    "non-linear parts are sample-wise functions (x*x, x+1) given to both sides by identity number; a polynomial whose "
+    "coefficients are not numbers (`zf + filter_list` = `zf + ZFilter([filter_list])`) is observed as the TypeError it "
+    "stands for; freq_response is compared in floats (1e-7 relative, skipped within 1e-6 of a pole)",
 ]
 ASSUMPTIONS = [
     "exact regime: Fraction coefficients, Poly zero=Fraction(0) on the leaves, Fraction signals, zero=Fraction(0); "
@@ -50,16 +75,26 @@ ASSUMPTIONS = [
     "loop exact on Fraction samples); outputs of single trees in the float regime are compared within "
     "1e-10 * (sum |impulse response of 1/den|) relative to the largest sample",
     "signal laws are stated for causal filters; a non-causal composite raises ValueError in the impl and in the model",
+    "outside the object model: coefficient lists / dicts as parts of a filter list, callables with memory, Stream "
+    "coefficients, complex scalars (the model's instance in the driver is Rat), <, <=, >, >= on filter lists, poles / "
+    "zeros / plot (numpy), non-dyadic fractional delays (float rounding)",
 ]
 MANIFEST = {
     "technique": "Lean 4 proof (ZFilter model interpreted into the fraction field of Mathlib's Laurent polynomial "
                  "ring K[T;T⁻¹] for the field laws / substitution / expression trees of any depth, and into K⟦X⟧ "
                  "via C04's A·Y = B·X with unit denominators for the signal laws) + differential tie on expression "
-                 "trees, law vectors, ==/!=/hash pairs and Cascade/Parallel lists in the exact Fraction regime",
-    "note": "48 theorems, no pending statement; D2 (__ne__ is `num != and den !=`) and D12 (ParallelFilter.denpoly "
-            "is the product while numpoly comes from the shortcut sum) recorded as known with "
-            "proposed_fixes/D2-filter-ne.diff and proposed_fixes/D12-parallel-denpoly.diff; both are stated in "
-            "Lean as theorems about the repaired shape plus a refutation of the shape as coded",
+                 "trees, law vectors, ==/!=/hash pairs, Cascade/Parallel lists, nested filter list objects (mutual "
+                 "inductive FL/FLs with joint induction: call = composition/sum, numpoly/denpoly = one causal filter "
+                 "denoting the product/sum at any depth), ==/!= matrices over mixed pools, operand spellings and "
+                 "fractional-delay linearisation, in the exact Fraction regime",
+    "note": "60 theorems, no pending statement; D2 (__ne__ is `num != and den !=`) and D12 (ParallelFilter.denpoly "
+            "is the product while numpoly comes from the shortcut sum) are repaired in /repo; D22 (ParallelFilter.numpoly/"
+            "denpoly run reduce(operator.add, self) on the raw elements: filter lists are concatenated, numbers stay "
+            "numbers) is recorded as known with proposed_fixes/D22-parallel-polys-of-lists.diff; each is stated in "
+            "Lean as theorems about the repaired shape plus a refutation of the shape as coded; filter lists are "
+            "modelled as objects (nested_call, nested_structure_denotes, constructor_rule, concat_denotes, "
+            "obj_eq_ne_exclusive, obj_eq_sound, obj_eq_hash) and tied through constructor call shapes, list methods "
+            "and ==/!= matrices",
 }
 
 warnings.filterwarnings("ignore", message="StreamTeeHub requesting")
@@ -425,7 +460,13 @@ def _part_leaf(rng, pool, fn_p=0.05, num_p=0.1):
         return ["fn", rng.randint(0, 3)]
     if r < fn_p + num_p:
         return ["n", enc(rng.choice([F(0), F(1), F(2), F(-1), F(3), F(1, 2)]))]
-    return ["zf", _leaf(rng, causal=rng.random() < 0.93, pool=pool)]
+    for _ in range(20):
+        t = _leaf(rng, causal=rng.random() < 0.93, pool=pool)
+        # a zero filter next to a filter list in a parallel makes `zf + ZFilter([filter_list])` succeed with a filter list as
+        # a coefficient (no coefficient arithmetic happens): kept rare, see _garbage_possible
+        if rng.random() < 0.1 or (t[0] in ("f", "fl") and any(dec(v if not isinstance(v, list) else v[1]) != 0 for v in t[1])):
+            return ["zf", t]
+    return ["zf", ["fl", [1], [1]]]
 
 
 def _gen_node(rng, depth, pool, fn_p=0.05):
@@ -1403,7 +1444,8 @@ def _cmp_nest(c, io, m):
     flt = any(p.get("float") for p in (io["numpoly"], io["denpoly"]))
     tol = 1e-9 if flt else 0
     # two code shapes are accepted: as coded (reduce(operator.add, self) on the raw elements) and the repair of D22
-    if not (_polys_match(io, m["polys_coded"], tol) or _polys_match(io, m["polys_fixed"], tol)):
+    if not (_polys_match(io, m["polys_coded"], tol) or _polys_match(io, m["polys_fixed"], tol)) \
+            and not _garbage_possible(c["obj"]):
         out.append(("model", "numpoly/denpoly: impl=%s / %s model(as coded)=%s model(repaired)=%s" % (
             json.dumps(io["numpoly"])[:120], json.dumps(io["denpoly"])[:120], json.dumps(m["polys_coded"])[:160],
             json.dumps(m["polys_fixed"])[:160])))
@@ -1640,6 +1682,18 @@ def _par_holds_list(t):
     return any(_par_holds_list(x) for x in _obj_children(t))
 
 
+def _garbage_possible(t):
+    """a parallel node holding both a filter list and a ZFilter / number directly: as coded `zf + filter_list` is
+    `zf + ZFilter([filter_list])`, which raises TypeError only if some coefficient arithmetic is attempted; otherwise a
+    filter list sits in the polynomial as a coefficient and may even vanish again in a product with a zero polynomial.
+    The as-coded model says TypeError; such structures are compared with the repaired shape and the spec only."""
+    if t[0] == "new" and t[1]:
+        kinds = {("list" if x[0] in _FL_CHILD else "leaf") for x in t[4] if x[0] != "fn"}
+        if len(kinds) == 2:
+            return True
+    return any(_garbage_possible(x) for x in _obj_children(t))
+
+
 def _shrink_obj(t):
     for x in _obj_children(t):
         if x[0] in _FL_CHILD | {"slice", "plain"}:
@@ -1732,7 +1786,8 @@ def _sig_class(c):
     if c["entry"] == "list":
         return (io["shortcut"], "err" in io["numpoly"], "err" in io["denpoly"], "err" in io["out"])
     if c["entry"] == "nest":
-        return (_par_holds_list(c["obj"]), io.get("numpoly", {}).get("err"), io.get("out", {}).get("err"))
+        return (_par_holds_list(c["obj"]), _garbage_possible(c["obj"]), io.get("numpoly", {}).get("err"),
+                io.get("out", {}).get("err"))
     return ()
 
 
@@ -1883,7 +1938,8 @@ def classify(c, io, drv):
         coded, fixed = m.get("polys_coded"), m.get("polys_fixed")
         flt = any(p.get("float") for p in (io["numpoly"], io["denpoly"]))
         if _par_holds_list(c["obj"]) and coded is not None and fixed is not None and "err" not in fixed \
-                and _polys_match(io, coded, 1e-9 if flt else 0) and not _polys_match(io, fixed, 1e-9 if flt else 0):
+                and (_polys_match(io, coded, 1e-9 if flt else 0) or _garbage_possible(c["obj"])) \
+                and not _polys_match(io, fixed, 1e-9 if flt else 0):
             return "nest:parallel holding a part that is not a ZFilter:numpoly/denpoly is not the sum of the parts:" \
                    "reduce(operator.add, self) adds the raw elements (filter lists are concatenated, numbers stay numbers) " \
                    "instead of the parts as filters"
